@@ -131,4 +131,48 @@ theorem index_versions_are_table_files (dir : Dir) (tables : List String) (res :
     ∧ (∀ t ∈ tables, (Dict.get? res.1 (versionField t)).isSome = true) :=
   versionInfo_spec dir tables res h
 
+/-! ## aliases: every name of a basis has its own record, and the records differ only in the two name fields -/
+
+/-- **one entry per listed name, under the transformed name, in the order the metadata file lists them** -/
+theorem alias_keys (names : List String) (mk : String → List String → J) :
+    (aliasEntries names mk).map (·.1) = names.map transformName := by
+  simp [aliasEntries, Function.comp_def]
+
+/-- **each alias carries its own display name and the other names** -/
+theorem alias_own_names (names : List String) (desc : J) (latest : String) (tags : J) (base rel : String) (fam role ft aux : J)
+    (vinfo : Dict) (e : String × J) (he : e ∈ aliasEntries names (commonRecord desc latest tags base rel fam role ft aux vinfo)) :
+    ∃ n ∈ names, e.1 = transformName n ∧
+      ∃ d, e.2 = .obj d ∧ Dict.get? d "display_name" = some (.str n) ∧
+        Dict.get? d "other_names" = some (.arr ((names.erase n).map .str)) := by
+  simp only [aliasEntries, List.mem_map] at he
+  obtain ⟨n, hn, rfl⟩ := he
+  exact ⟨n, hn, rfl, _, rfl, by simp [Dict.get?], by simp [Dict.get?]⟩
+
+/-- **every alias maps to the same record**: any two entries of one basis agree on every field other than
+`display_name` and `other_names` (description, latest version, tags, file base, family, role, function types,
+auxiliaries and the whole version table) -/
+theorem alias_records_agree (names : List String) (desc : J) (latest : String) (tags : J) (base rel : String) (fam role ft aux : J)
+    (vinfo : Dict) (e1 e2 : String × J)
+    (h1 : e1 ∈ aliasEntries names (commonRecord desc latest tags base rel fam role ft aux vinfo))
+    (h2 : e2 ∈ aliasEntries names (commonRecord desc latest tags base rel fam role ft aux vinfo)) :
+    ∃ d1 d2, e1.2 = .obj d1 ∧ e2.2 = .obj d2 ∧ d1.drop 2 = d2.drop 2 ∧ Dict.keys d1 = Dict.keys d2 := by
+  simp only [aliasEntries, List.mem_map] at h1 h2
+  obtain ⟨n1, _, rfl⟩ := h1
+  obtain ⟨n2, _, rfl⟩ := h2
+  exact ⟨_, _, rfl, rfl, rfl, rfl⟩
+
+/-- what the common part holds: the fields of the composed basis and the version table -/
+theorem alias_common_fields (desc : J) (latest : String) (tags : J) (base rel : String) (fam role ft aux : J) (vinfo : Dict)
+    (disp : String) (others : List String) :
+    ∃ d, commonRecord desc latest tags base rel fam role ft aux vinfo disp others = .obj d ∧
+      Dict.get? d "description" = some desc ∧ Dict.get? d "latest_version" = some (.str latest) ∧
+      Dict.get? d "family" = some fam ∧ Dict.get? d "role" = some role ∧ Dict.get? d "function_types" = some ft ∧
+      Dict.get? d "auxiliaries" = some aux ∧ Dict.get? d "versions" = some (.obj vinfo) ∧ Dict.get? d "basename" = some (.str base) :=
+  ⟨_, rfl, by simp [Dict.get?], by simp [Dict.get?], by simp [Dict.get?], by simp [Dict.get?], by simp [Dict.get?],
+    by simp [Dict.get?], by simp [Dict.get?], by simp [Dict.get?]⟩
+
+/-- two names: two entries, each carrying the other name -/
+example : (aliasEntries ["6-31G**", "6-31G(d,p)"] (fun _ o => .arr (o.map .str))).map (fun e => (e.1, match e.2 with | .arr [.str s] => s | _ => ""))
+    = [("6-31g_st__st_", "6-31G(d,p)"), ("6-31g(d,p)", "6-31G**")] := by decide
+
 end BSE.Props.C11
